@@ -877,8 +877,10 @@ func JudgeC08(c *Case, res *Result) (out []Finding, knownClassHits int) {
 		okLevels := true
 		for k, r := range lo.Runs {
 			if isTruncator(r) {
+				// the truncator goes with or against the paragraph by its progression (the axis
+				// and the orientation flags of vertical directions play no part in rule L2)
 				levels[k] = base
-				if r.Direction != para {
+				if r.Direction.Progression() != para.Progression() {
 					levels[k] = base + 1
 				}
 			} else {
